@@ -87,7 +87,8 @@ CLAIMED = {
             "§8 C06"),
     "C16": ("Text.tla's reader classifies every token sequence up to a length bound as complete / completable with "
             "closer c / malformed; TLC enumerates them; the real READ and the REPL's own multiLine classifier (verif "
-            "export) must agree on every one",
+            "export) must agree on every one; Repl.tla models the interactive loop as a state machine over typed lines "
+            "(TLC checks its invariants) and every session up to 3 lines is piped into the real repl.Execute",
             "Exhaustive: all token sequences of length <= 4 (quick) / <= 5 (thorough) over two 14-token alphabets "
             "(every bracket kind, reader macros, strings/raw strings containing brackets, comments) + all character "
             "strings of length <= 4 over the bracket alphabets (118k / 1.2M judged texts).",
@@ -111,7 +112,8 @@ CLAIMED = {
             "§8 C15"),
     "C19": ("Text.tla renders every program with 12 layouts and TLC asserts on the model that each rendering reads back to "
             "the same forms (layout insensitivity); Def.tla gives the program's meaning; the real code then runs the program "
-            "through 7 delivery routes, each compared with Def and all compared with each other",
+            "through 7 delivery routes, each compared with Def and all compared with each other; REPL sessions of Repl.tla "
+            "are piped line by line into the real repl.Execute and the printed values compared",
             "Exhaustive over C01-grammar programs up to 2 (quick) / 3 (thorough) nodes + 22 multi-form programs x 12 layouts "
             "x 7 routes (8.5k / 120k route executions).",
             "Routes built by the harness (file written to a temp dir for load-file); REPL route compares the printed value "
@@ -159,7 +161,9 @@ CLAIMED = {
             "operation as its sequence of critical sections; TLC checks no-lost-update, failed-swap-keeps-cell, deadlock "
             "freedom and termination exhaustively on 5 scenarios (and shows the deadlocks of the previous lock-held "
             "design); recorded executions of the real code (hooks at the linearization points under the lock) are "
-            "validated event by event by TraceAtom.tla; hangs judged structurally; race detector run",
+            "validated event by event by TraceAtom.tla; hangs judged structurally; race detector run; the compare-and-set "
+            "design is additionally PROVED with TLAPS for any number of threads (AtomCasProof.tla) and AtomImpl is checked "
+            "by TLC to refine that abstract machine",
             "Exhaustive model checking within 3 threads / 2 atoms / scripts of <= 2 operations; trace validation of 324 "
             "(quick) / 4k (thorough) real concurrent scenarios with up to 6 threads x 6 operations; binding self-test "
             "(a corrupted trace must be rejected).",
@@ -171,7 +175,8 @@ CLAIMED = {
             "separate steps; TLC checks P1..P7 exhaustively for 4 body kinds x with/without canceller x caller-context expiry "
             "(and exhibits the P4/P5 counterexample of the pre-repair design); that counterexample schedule is replayed "
             "deterministically into the real code through a gate at the delivery hook, random schedules are recorded and "
-            "validated by TraceFuture.tla; race detector run",
+            "validated by TraceFuture.tla; derefs with an ended caller context while the body is held; race detector run; "
+            "P1-P6 are additionally PROVED with TLAPS over FutureImpl itself for any set of deref threads (FutureProof.tla)",
             "Exhaustive model checking (2 derefers + canceller + body); deterministic replay of the model's window for each "
             "body kind; 154 (quick) / 3k (thorough) recorded real schedules validated; binding self-test.",
             "Real schedules sampled; ordering of overlapping operations not judged; race detector trusted.",
@@ -179,8 +184,9 @@ CLAIMED = {
     "C11": ("EnvLock.tla models the scope tree with one RWMutex per scope and lookups that climb holding their read locks; TLC "
             "checks deadlock freedom and reads-see-latest-set (and exhibits the deadlock of a shared-mutex variant); Def.tla "
             "gives every program's solo outcome; the real code runs every set of programs simultaneously on one environment "
-            "and each must equal its solo outcome; the hook's per-scope operation log is validated by TraceEnv.tla; race "
-            "detector run",
+            "and each must equal its solo outcome; the hook's per-scope operation log is validated by TraceEnv.tla; writer/"
+            "reader logs of global definitions are validated by TraceRW.tla (linearizable register: seen entirely or not at "
+            "all); race detector run",
             "Exhaustive over all pairs (quick, 136 sets x 2 repetitions) / triples (thorough, 816 sets x 4) of a 16-template "
             "pool; 46 / 300 recorded scope logs validated (42k+ events); binding self-test.",
             "Schedules are whatever the Go scheduler produces under load (not enumerated); programs with futures are not in "
